@@ -166,9 +166,13 @@ Definition case_agrees (c : case) : bool :=
       && Bool.eqb (is_done fin) dn
       && qpr_eqb (if found s then fetch_dir (w_hi w) (w_rev w) (w_per w) fin else qpr_zero) res
   | CRace w k fnd dn res =>
-      let s := crash_state [] (start_ops (w_fs w)) k 0 in
-      let r := fetch_concurrent (w_hi w) (w_rev w) (w_per w) s (apply_ops s (resume_ops s (w_fs w))) in
-      Bool.eqb fnd (found s) && Bool.eqb dn (fst r) && qpr_eqb res (snd r)
+      (* the fetch took its snapshot at the resumed state or at some later state of the run *)
+      let ops := start_ops (w_fs w) in
+      fnd
+      && existsb (fun k' =>
+           let r := fetch_result (w_hi w) (w_rev w) (w_per w) (crash_state [] ops k' 0) in
+           Bool.eqb dn (fst r) && qpr_eqb res (snd r))
+         (seq k (S (length ops - k)))
   | CProxy naggs size hi rev shards syncs impl =>
       match proxy_fetch naggs size hi rev shards, impl with
       | None, None => true
